@@ -102,14 +102,23 @@ impl Slicing {
             .map(|i| i as isize);
         Ok(start)
     }
+
+    /// Converts without negating, so that the most negative int is a valid bound
+    fn index(index: Option<isize>) -> slyce::Index {
+        match index {
+            None => slyce::Index::Default,
+            Some(index) if index < 0 => slyce::Index::Tail(index.unsigned_abs()),
+            Some(index) => slyce::Index::Head(index as usize),
+        }
+    }
 }
 
 impl Exec for Slicing {
     fn exec(&self, interpreter: &mut Interpreter) -> ExecResult {
         let lhs = self.lhs.exec(interpreter)?;
 
-        let start = Slicing::exec_index(&self.start, interpreter)?.into();
-        let end = Slicing::exec_index(&self.stop, interpreter)?.into();
+        let start = Slicing::index(Slicing::exec_index(&self.start, interpreter)?);
+        let end = Slicing::index(Slicing::exec_index(&self.stop, interpreter)?);
         let step = Slicing::exec_index(&self.step, interpreter)?;
 
         let s = slyce::Slice { start, end, step };
